@@ -166,10 +166,12 @@ def run_check(ctx, args):
                 rp = json.load(f)
             # a replay does not know whether the failing tree was a fresh or a lived-in one: both are tried
             res = None
-            for lived in (0, 1):
+            for lived, which in ((0, "rotate"), (1, None), (1, 0), (1, 1), (1, 2), (1, 3)):
                 _adapter.LIVED_IN = lived
+                _adapter.FORCE_WHICH = which
                 res = mod.replay(ctx, rp)
                 res["lived_in_trees"] = bool(lived)
+                res["lived_in_perturbation"] = which if lived else None
                 if not res.get("property_holds"):
                     break
             print(json.dumps(res, indent=1, default=str, ensure_ascii=False))
